@@ -516,6 +516,7 @@ func (h *ResponseHeader) ResetSkipNormalize() {
 
 	h.statusCode = 0
 	h.contentLength = 0
+	h.headerLength = 0
 	h.contentLengthBytes = h.contentLengthBytes[:0]
 	h.contentEncoding = h.contentEncoding[:0]
 
